@@ -124,20 +124,19 @@ fn pid_reset_check(ev: Output<f32, Er>) {
     assert!(r1.beq(&r2));
     assert!(pid_snap_eq(&pid_snap(&s), &pid_snap(&fresh)));
     assert!(s.get().beq(&fresh.get()));
+    reach!();
 }
 
 //@ob fn="<PIDControllerStream<G,E> as Updatable>::update" at=src/streams/control.rs:48 clause="reset on absent: step(s, None) == step(new(same parameters), None), every field bit-equal, for an arbitrary inv-state s"
 #[kani::proof]
 fn c05_pid_reset_absent() {
     pid_reset_check(Ok(None));
-    reach!();
 }
 
 //@ob fn="<PIDControllerStream<G,E> as Updatable>::update" at=src/streams/control.rs:52 clause="reset on error: step(s, Err e) == step(new(same parameters), Err e), every field bit-equal, for an arbitrary inv-state s and every e"
 #[kani::proof]
 fn c05_pid_reset_error() {
     pid_reset_check(Err(kani::any()));
-    reach!();
 }
 
 //@ob fn="<PIDControllerStream<G,E> as Getter>::get" at=src/streams/control.rs:39 clause="purity: get() returns the cached output, twice the same (bitwise), every field bit-unchanged, input not touched; arbitrary state (no invariant needed)"
